@@ -260,7 +260,7 @@ func (x *Exec) callSpec(st *State, fn *ssa.Function, args []Value) Value {
 	for i, p := range fn.Params {
 		args[i].T = p.Type()
 	}
-	if ct := x.Prog.Contracts[QualName(fn)]; ct != nil && ct.Opaque && !x.Opt.Reveal {
+	if ct := x.Prog.Contracts[QualName(fn)]; ct != nil && ct.Opaque && !x.Opt.Reveal && !x.Opt.RevealOnly[fn.Name()] {
 		return x.applyOpaque(st, fn, ct, args)
 	}
 	if isSelfRecursive(fn) || x.definable(fn) {
